@@ -803,6 +803,9 @@ def run_case(scn, drv):
         if len(r2v['op'].c) != len(ro['op'].c) or len(r2v['op'].cType) != len(ro['op'].cType):
             viol('%s: problem has %d variables / %d rows, original %d / %d' % (where, len(r2v['op'].c), len(r2v['op'].cType), len(ro['op'].c), len(ro['op'].cType)), variant=tag, what='stage2_size', stage=2)
             return
+        if 'inaccurate' in (r2v['res'], ro['res']):
+            feats.append('stage2-solver-inaccurate')      # the solver makes no claim about one of the two re-optimisations: nothing to compare
+            return
         if isinstance(r2v['res'], str) != isinstance(ro['res'], str):
             viol('%s: optimisation status differs (%s vs %s for the original)' % (where, r2v['res'] if isinstance(r2v['res'], str) else 'successful', ro['res'] if isinstance(ro['res'], str) else 'successful'),
                  variant=tag, what='stage2_status', stage=2)
@@ -905,7 +908,10 @@ def run_case(scn, drv):
                 o2 = copy.copy(rr['op'])
                 o2.c = np.array(cc, dtype=float)
                 q = solve_only({'op': o2})
-                vals.append(None if isinstance(q['res'], str) else float(q['res'].value))
+                vals.append('inaccurate' if q['res'] == 'inaccurate' else None if isinstance(q['res'], str) else float(q['res'].value))
+            if 'inaccurate' in vals:
+                feats.append('sample-solver-inaccurate')
+                return
             if (vals[0] is None) != (vals[1] is None):
                 viol('%s: under another price sample (cost vector from costs_only) the optimisation status differs (%s vs %s)' % (tag, vals[0], vals[1]), variant=tag, what='sample_status')
                 return
@@ -949,6 +955,9 @@ def run_case(scn, drv):
             viol(msg, variant=tag, what='size')
             return
         pf.solve_rec(rv)
+        if 'inaccurate' in (rv['res'], rec['res']):
+            feats.append('solver-inaccurate')      # no claim by the solver about one of the two runs
+            return
         if isinstance(rv['res'], str) != isinstance(rec['res'], str):
             viol('%s: optimisation status differs (%s vs %s)' % (tag, rv['res'] if isinstance(rv['res'], str) else 'successful', rec['res'] if isinstance(rec['res'], str) else 'successful'), variant=tag, what='status')
             return
